@@ -46,7 +46,7 @@ def cases(tier, seed):
         lays = LAYOUTS_Y if zoo.kind(name) == "y" else LAYOUTS_X
         cost = {"PCACD": 5, "KdqTreeStreaming": 4, "LinearFourRates": 3, "KdqTreeBatch": 3}.get(name, 1)
         for lay in lays:
-            if lay in ("buffer", "frame_buffer", "readonly_buffer") and zoo.kind(name) == "batch":
+            if lay == "readonly_buffer" and zoo.kind(name) == "batch":
                 continue
             if lay == "zero_d_buffer" and zoo.kind(name) != "x1":
                 continue  # a 0-d array is one number: univariate streaming detectors only
@@ -210,6 +210,11 @@ def run_case(case, ctx):
 
     params = det_params(name, rng)
     calls, d = valid_history(name, rng, params, allow_1d=True, p1d=1.0 if layout == "one_d_view" else 0.45)
+    if zoo.kind(name) == "batch" and layout in ("buffer", "frame_buffer"):
+        # one preallocated batch buffer (array or frame) refilled in place for every call: all batches of one size
+        mn_ = min(len(v) for _, v in calls)
+        calls = [(m_, np.asarray(v)[:mn_]) for m_, v in calls]
+        ctx.count("batch_histories_through_one_reused_buffer")
     if d == 1 and zoo.kind(name) == "batch":
         ctx.count("one_column_batch_histories")
     a = run(name, params, calls, layout, True, key, ctx, True)
